@@ -588,7 +588,7 @@ func init() {
 func c12run(r *ev.Run) {
 	bound, repeats := 1, 4
 	if thorough(r) {
-		bound, repeats = 2, 6
+		bound, repeats = 2, 3
 	}
 	ex := &xplore.Explorer{Bounds: []int{bound}, Workers: r.Workers, Deadline: deadlineFor(r.Tier), Body: func(c *xplore.Ctx) {
 		wit, fs, nontriv, skip := c12body(c, repeats)
